@@ -31,9 +31,10 @@ class Out(RW.RecOut):
         W.ev('bad', 'layer')
 
 
-def stop(pos, kb, kpre, kpost, su_fault, rep2, topo, x):
+def stop(pos, kb, kpre, kpost, su_fault, rep2, topo, x, tdn=0):
     global LAST
     W.reset()
+    tdn = ci(tdn, 0, 3)          # chain topology only: layer tdn-1 (A, B, C) cannot be torn down (NotImplementedError in the final pass)
     pos = ci(pos, 0, 5)
     kb, kpre, kpost = pick(BADK, kb), pick(PREK, kpre), pick(POSTK, kpost)
     su_fault = ci(su_fault, 0, 3)
@@ -41,16 +42,18 @@ def stop(pos, kb, kpre, kpost, su_fault, rep2, topo, x):
     topo = ci(topo, 0, 1)
     kinds = [kpre if i < pos else (kb if i == pos else kpost) for i in range(5)]
     with untraced():
-        A = W.mk_layer('A', (), su=int(su_fault == 0), hooks='st')
-        B = W.mk_layer('B', (A,) if topo else (), su=int(su_fault == 1), hooks='st')
-        C = W.mk_layer('C', (B,) if topo else (), su=int(su_fault == 2), hooks='st')
+        if not topo:
+            tdn = 0
+        A = W.mk_layer('A', (), su=int(su_fault == 0), td=2 if tdn == 1 else 0, hooks='st')
+        B = W.mk_layer('B', (A,) if topo else (), su=int(su_fault == 1), td=2 if tdn == 2 else 0, hooks='st')
+        C = W.mk_layer('C', (B,) if topo else (), su=int(su_fault == 2), td=2 if tdn == 3 else 0, hooks='st')
         tests = [W.mk_test(n, k) for n, k in zip(NAMES, kinds)]
     o = RW.options((['-x'] if x else []) + (['--repeat', '2'] if rep2 else []), out_cls=Out)
     r = RW.make_runner(o, [(C, tests[4:]), (A, tests[:2]), (B, tests[2:4])])
     r.run_tests()
     with untraced():
         why = oracle([e for e in W.TRACE], r, x, topo, su_fault)
-    LAST = (tuple(kinds), su_fault, rep2, topo, x, why, tuple(e[1:3] for e in W.TRACE if e[1] in ('su', 'td', 'setUp', 'bad', 'summary')))
+    LAST = (tuple(kinds), su_fault, rep2, topo, x, why, tuple(e[1:3] for e in W.TRACE if e[1] in ('su', 'td', 'setUp', 'bad', 'summary')), tdn)
     return why is None
 
 
@@ -145,13 +148,13 @@ def stop_child_reach(*a):
     return LAST[4] is None and len({p for p, _n in LAST[5]}) == 1 and LAST[5][0][0] != 0
 
 
-_P = [('pos', 'int'), ('kb', 'int'), ('kpre', 'int'), ('kpost', 'int'), ('su_fault', 'int'), ('rep2', 'bool'), ('topo', 'int'), ('x', 'bool')]
+_P = [('pos', 'int'), ('kb', 'int'), ('kpre', 'int'), ('kpost', 'int'), ('su_fault', 'int'), ('rep2', 'bool'), ('topo', 'int'), ('x', 'bool'), ('tdn', 'int')]
 _C = ', '.join(n for n, _ in _P)
-_B = '0 <= pos <= 5 and 0 <= kb < %d and 0 <= kpre < %d and 0 <= kpost < %d and 0 <= su_fault <= 3 and 0 <= topo <= 1' % (len(BADK), len(PREK), len(POSTK))
+_B = '0 <= tdn <= 3 and (topo == 1 or tdn == 0) and 0 <= pos <= 5 and 0 <= kb < %d and 0 <= kpre < %d and 0 <= kpost < %d and 0 <= su_fault <= 3 and 0 <= topo <= 1' % (len(BADK), len(PREK), len(POSTK))
 
 
 def _v(**kw):
-    v = dict(pos=1, kb=0, kpre=0, kpost=1, su_fault=3, rep2=False, topo=0, x=True)
+    v = dict(pos=1, kb=0, kpre=0, kpost=1, su_fault=3, rep2=False, topo=0, x=True, tdn=0)
     v.update(kw)
     return v
 
@@ -168,13 +171,13 @@ SPEC = {
     'outside': ['more than 5 tests in 3 layers (stop) / 3 tests in the failing layer (stop_child)'],
     'harnesses': [
         {'name': 'stop', 'fn': 'stop', 'params': _P, 'call': _C,
-         'bounds': {'quick': _B + ' and (su_fault == 3 or pos >= 4) and kpost == 1 and (kpre == 0 or not rep2)', 'thorough': _B},
+         'bounds': {'quick': _B + ' and (su_fault == 3 or pos >= 4) and kpost == 1 and (kpre == 0 or not rep2) and (tdn == 0 or (su_fault == 3 and kpre == 0 and not rep2 and kb <= 1))', 'thorough': _B + ' and (tdn == 0 or su_fault == 3)'},
          'slices': {'quick': ['pos == %d and %s and topo == %d' % (p, xx, t) for p in range(6) for xx in ('x', 'not x') for t in (0, 1)],
                     'thorough': ['pos == %d and %s and su_fault == %d and topo == %d' % (p, xx, s, t) for p in range(6) for xx in ('x', 'not x') for s in range(4) for t in (0, 1)]},
          'reach': 'stop_reach', 'reach_bounds': {'quick': _B + ' and su_fault == 3 and kpre == 0 and kpost == 0 and not rep2 and topo == 0',
                                                  'thorough': _B + ' and su_fault == 3 and kpre == 0 and kpost == 0 and not rep2 and topo == 0'},
          'timeout': {'quick': 240, 'thorough': 850},
-         'fidelity': [_v(), _v(pos=0, kb=3, rep2=True, topo=1), _v(pos=5, su_fault=1, topo=1), _v(pos=2, kb=2, x=False)]},
+         'fidelity': [_v(), _v(pos=0, kb=3, rep2=True, topo=1), _v(pos=5, su_fault=1, topo=1), _v(pos=2, kb=2, x=False), _v(pos=3, topo=1, tdn=2), _v(pos=4, topo=1, tdn=3, x=False)]},
         {'name': 'stop_child', 'fn': 'stop_child', 'params': [('mode', 'int'), ('kb', 'int'), ('pos', 'int'), ('rep2', 'bool')], 'call': 'mode, kb, pos, rep2',
          'bounds': {'quick': '0 <= mode <= 3 and 0 <= kb < %d and 0 <= pos <= 2' % len(CHILD_BAD), 'thorough': '0 <= mode <= 3 and 0 <= kb < %d and 0 <= pos <= 2' % len(CHILD_BAD)},
          'slices': {'quick': ['mode == %d' % m for m in range(4)], 'thorough': ['mode == %d and pos == %d' % (m, p) for m in range(4) for p in range(3)]},
